@@ -165,6 +165,7 @@ PROPS = {
             'ring reader window (src/ring_reader.rs is_utf8_continuation, utf8_expected_len, trim_incomplete_utf8_tail, trim_to_utf8_boundaries_with_line): exactly the leading continuation bytes are dropped (offset advanced by their number, line number unchanged since a continuation byte is never a line feed), only an incomplete last code point is dropped at the end, what remains is a sub-window of the input that neither starts with a continuation byte nor stops inside a code point; total for every byte string',
             'the recent-bytes window itself (unit ring): FixedRingBuffer push / pop / iterate against "the retained bytes, oldest first"; after any sequence of reads and read-aheads the window is the last RING_BUFFER_SIZE bytes read from the source, its first line number has advanced by exactly the lines that ended in front of it - a line ends at LF or at a CR not followed by LF, as the scanner and Location::line count them -, its offset by exactly the bytes that left it, and it ends where reading stopped; get_recent returns a piece of that window whose start line is the line of its first byte and whose offsets bracket it',
             'from_reader_with_options feeds the recent-bytes window with the DECODED text that locations refer to (statement fragment from_reader_with_options#ring: the decoder is put in front of the ring; F30), against an assumed one-line contract of the encoding_rs_io builder and of SharedRingReader / SharedRingReaderHandle (what the ring holds is what its inner reader delivers: proved for RingReader in unit ring)',
+            'the miette adapter (feature miette, statement fragment of to_miette_report_with_formatter): the source handed to miette is the text without a leading byte order mark, i.e. the text every Location offset refers to (F31); crop_window_text: the marker span it rebases onto the horizontally cropped text still starts at the character of the reported column (conditional in-body obligation; the premise - the span handed in starts at the reported column of that line - is what the #marker fragments prove)',
             'crop_source_window splits lines at LF only in text without a lone CR (F29): has_lone_cr / lone_cr_to_lf are assumed there and checked on their real text by a bounded-only harness in every run (all strings up to 8 characters over a five-symbol alphabet) - bounded, not proved',
             'line_col_to_byte_offset_with_starts: the offset is on a char boundary inside the reported line and is exactly (column - 1) characters after that line\'s start; next_char_boundary: the end of the one-character marker; and the part of Snippet::fmt_or_fallback and of fmt_snippet_window_with_mapping_or_fallback between the line table and the horizontal crop (statement fragments, the fall-back returns turned into None): the vertical window is the reported line +- 2, it starts at a line start, and the marker span handed on starts at the reported column of the reported line inside that window and covers no or one character',
             'col_to_byte_offset_in_line: Some(i) iff 1 <= col <= chars+1 and i is exactly the byte offset of that character (unit crop)',
@@ -174,7 +175,7 @@ PROPS = {
             'crop_source_window: every string slice is in range and on a char boundary, every index in bounds, no overflow; the vertical window holds the error line and at most two lines either side; on the error line nothing left of error column + radius is removed',
         ],
         not_covered=['UTF-8 validity of the sanitised bytes (the lossy fallback is therefore not proved dead)',
-                     'that the span rebased by crop_window_text (horizontal crop of very long lines) still points at the reported column (only its bounds are proved; the span handed to it is proved to), annotate-snippets rendering; reflected keys, formatter messages, miette; SharedRingReader (Rc<RefCell>) and the use of the snapshot in src/lib.rs attach_snippet'],
+                     'annotate-snippets rendering itself; the END of the rebased marker span (only ordered and inside the text); to_source_span of the miette adapter (char-to-byte conversion when a location has no byte information); reflected keys, formatter messages, miette; SharedRingReader (Rc<RefCell>) and the use of the snapshot in src/lib.rs attach_snippet'],
         assumptions=['String::into_bytes / from_utf8 shims (contracts/snippet.shim.rs)',
                      'str slicing / find / strip / char_indices / chars().count() shims (contracts/crop.shim.rs): slicing panics exactly when an end is not a char boundary or the range is inverted',
                      'a str has at most isize::MAX bytes (assumed allocation invariant); UTF-8 self-synchronisation (an ASCII byte of a valid encoding is a whole character) is PROVED from vstd\'s definition of encode_utf8 (lemma_ascii_byte_char)'],
@@ -211,7 +212,7 @@ PROPS = {
             'write_indent / serialize_tuple_variant prologue / empty-collection fragments: see DESIGN.md section 0 "Emitter positions"',
             'write_folded_block: a long line is broken only at a run of spaces after a non-empty piece, exactly one space of the run is swallowed by the break, the next piece and the line itself start with neither space nor tab, and the pieces joined by single spaces are the original line',
         ],
-        not_covered=['the numeric-looking regex (uninterpreted) and parse_yaml11_bool (std string comparisons; uninterpreted), the body of a FOLDED block scalar as a whole (only its per-line folding is specified), the digits produced by the external crate zmij (assumed ASCII shortest round-trip text; `.nan` / `.inf` branches not under contract), the reader side of the round trip',
+        not_covered=['the numeric-looking regex (uninterpreted) and parse_yaml11_bool (std string comparisons; uninterpreted), the body of a FOLDED block scalar as a whole (only its per-line folding is specified), the digits produced by the external crate zmij (assumed ASCII shortest round-trip text; the `.nan` / `.inf` / `-.inf` branches and the normalisation to YAML's float grammar ARE under contract: float_text), the reader side of the round trip',
                      'both C12 observations an independent reviewer made while seeding are now contract-detected and fixed: trailing blank (F12) and block-scalar indentation indicators in nested positions (F15)'],
         assumptions=['fmt::Write is an append-only sink (contracts/quoting.shim.rs); write! with {:02X}/{:04X} prints upper-case hex; char::is_control is category Cc',
                      'std str operations of the predicates behave as their shims say (contracts/plain.shim.rs); that plain_reads_back is SUFFICIENT for a YAML reader is not proved (no reader semantics) - it is the list of necessary conditions of the YAML spec',
